@@ -33,6 +33,8 @@ DOMAINS = {
     'val': ('real', -50, 50),
     'int': ('int', -6, 6),
     'count': ('int', 0, 3),
+    'count2': ('int', 0, 2),
+    'int3': ('int', -3, 3),
     'raw': ('int', 0, 65535),
     'zone': ('int', 0, 7),
     'any': ('real', None, None),
